@@ -27,7 +27,10 @@ Accepted: straight-line code made of
     arrays (broadcasting), `scalar * array`, `array * scalar`, unary `-`/`+`, `np.negative/add/subtract/multiply/
     divide`; `a.sum(axis, keepdims=True)` / `np.sum(a, axis=…, keepdims=True)` with a literal axis; `a > 0` / `0 < a`;
     `np.maximum(a, 0)`; `softmax(a)` (must be sklearn.utils.extmath.softmax); `.copy()`; integer literals and
-    `self.reg` with `+ - * /` as scalars; `super().<method>(…)` when the parent's method is itself a translated unit.
+    `self.reg` with `+ - * /` as scalars; `super().<method>(…)` when the parent's method is itself a translated unit;
+    `f(…)` for a top-level function `f` of the same file (bound exactly once in the module, undecorated, plain positional
+    parameters) whose body is `x = expr` / `x op= expr` / `return expr` in this same expression language and reads nothing
+    but its parameters: the body is INLINED (`Unit.inline`), its variables get Lean names of their own (`<f>_<name>`).
 Anything else (loops, branches, calls of unknown functions, `**`, slicing, keepdims=False, non-integer literals,
 `np.maximum` with another second argument, …) raises TranslationFailure: the tie is then reported broken.
 """
@@ -109,6 +112,8 @@ class Module:
             for nm in names:
                 if nm in self.numpy or nm in self.softmax:
                     raise TranslationFailure(f"{rel}: module-level rebinding of {nm}")
+        from .geminis import module_helpers       # (geminis.py imports this module: late import)
+        self.helpers = module_helpers(self.tree)  # top-level functions bound exactly once: calls to them are inlined
 
 
 class World:
@@ -158,6 +163,8 @@ class Unit:
         self.result = None
         self.args = []
         self.list_args = set()
+        self.scopes = []                      # inlined helper functions: [name, {python name: Lean name}, returned Val]
+        self.taken = None                     # names a helper-local Lean name must avoid
 
     # ------------------------------------------------------------ helpers
     def fail(self, msg, node=None):
@@ -165,6 +172,8 @@ class Unit:
         raise TranslationFailure(f"{self.mod.rel}::{self.where}{ln}: {msg}")
 
     def attr(self, name, node):
+        if self.scopes:
+            self.fail(f"read of self.{name} inside a helper function", node)
         if name in SCALAR_ATTRS:
             kind = "scal"
         elif name.endswith("_") or name in ARRAY_ATTRS_EXTRA:
@@ -312,9 +321,108 @@ class Unit:
             self.env[var] = saved
         return Val("list", out)
 
+    # ------------------------------------------------------------ pure module-level helper functions, inlined
+    def local_name(self, name):
+        """Lean name of a Python variable: itself at the level of the method (a rebinding shadows the previous `let`), a
+        name of its own inside an inlined helper function (whose variables must not shadow the caller's)"""
+        if not self.scopes:
+            return lean_ident(name)
+        _, names, _ = self.scopes[-1]
+        if name not in names:
+            if self.taken is None:
+                self.taken = {n.id for n in ast.walk(self.fn) if isinstance(n, ast.Name)} | {a.arg for a in self.fn.args.args}
+                self.taken |= {n.attr for n in ast.walk(self.fn) if isinstance(n, ast.Attribute)}
+                self.taken |= {"self_" + x for x in self.taken} | LEAN_KEYWORDS | {u[0] for u in UNITS} \
+                    | {f"{u[0]}_retained_{x}" for u in UNITS for x in self.taken}
+            base = lean_ident(f"{self.scopes[-1][0].strip('_') or 'helper'}_{name}")
+            cand, k = base, 0
+            while cand in self.taken:
+                k += 1
+                cand = f"{base}_{k}"
+            self.taken.add(cand)
+            names[name] = cand
+        return names[name]
+
+    def inline(self, name, e):
+        """`name(args)` for a function defined (once, undecorated) at the top level of the same file: its body — `x = expr`,
+        `x op= expr` on its own fresh arrays, `return expr`, in the expression language of this translator — is translated
+        in place, in a scope holding nothing but its parameters (no `self`, no `super()`, no global but the NumPy module,
+        `softmax` and the other top-level functions).  Parameters are bound by `let`s under names of their own and are
+        never updated in place; a returned value that is not freshly allocated may share memory with any argument."""
+        from .geminis import check_plain_function
+        fn = self.mod.helpers[name]
+        if len(self.scopes) >= 8 or any(s[0] == name for s in self.scopes):
+            self.fail(f"{name}(…): recursive helper function", e)
+        caller = self.mod.helpers[self.scopes[-1][0]] if self.scopes else self.fn
+        if any(isinstance(n, ast.Name) and n.id == name and isinstance(n.ctx, (ast.Store, ast.Del)) for n in ast.walk(caller)) \
+                or name in {x.arg for x in caller.args.args}:
+            self.fail(f"{name}(…): the calling function binds the name {name} itself", e)
+        a = fn.args
+        if fn.decorator_list or a.vararg or a.kwarg or a.kwonlyargs or a.posonlyargs or a.defaults:
+            self.fail(f"{name}(…): helper functions must be undecorated and take plain positional parameters without defaults", e)
+        params = [x.arg for x in a.args]
+        if any(isinstance(x, ast.Starred) for x in e.args) or any(k.arg is None for k in e.keywords) or len(e.args) > len(params):
+            self.fail(f"{name}(…): arguments do not match the signature", e)
+        given = dict(zip(params, e.args))
+        for k in e.keywords:
+            if k.arg not in params or k.arg in given:
+                self.fail(f"{name}(…): arguments do not match the signature", e)
+            given[k.arg] = k.value
+        if len(given) != len(params) or len(set(params)) != len(params):
+            self.fail(f"{name}(…): arguments do not match the signature", e)
+        check_plain_function(self, fn)
+        stores = {n.id for n in ast.walk(fn) if isinstance(n, ast.Name) and isinstance(n.ctx, (ast.Store, ast.Del))}
+        bad = (stores | set(params)) & (self.mod.numpy | self.mod.softmax | {"self", "super"} | set(self.mod.helpers))
+        if bad:
+            self.fail(f"{name}(…): the helper function rebinds {', '.join(sorted(bad))}", e)
+        vals = {p: self.expr(x) for p, x in given.items()}          # in the caller's scope, in call order
+        if self.taken is not None:
+            self.taken |= {n.id for n in ast.walk(fn) if isinstance(n, ast.Name)}
+        saved = (self.env, self.aliased, self.where)
+        self.env, self.aliased = {}, set()
+        self.where = f"{saved[2]} -> {name}"
+        self.scopes.append([name, {}, None])
+        try:
+            for p in params:
+                v = vals[p]
+                if v.kind not in ("arr", "scal"):
+                    self.fail(f"{name}(…): argument {p} is neither an array nor a scalar", e)
+                self.bind(p, Val(v.kind, v.term, False))
+                self.aliased.add(p)                                    # the caller's array: never updated in place
+            for st in fn.body:
+                if self.scopes[-1][2] is not None:
+                    break                                              # statements after `return` are never run
+                if isinstance(st, ast.Expr) and isinstance(st.value, ast.Constant) and isinstance(st.value.value, str):
+                    continue
+                if isinstance(st, ast.Assign):
+                    self.assign(st, None)
+                elif isinstance(st, ast.AugAssign):
+                    self.augassign(st)
+                elif isinstance(st, ast.Return):
+                    if st.value is None:
+                        self.fail("return without value", st)
+                    self.scopes[-1][2] = self.expr(st.value)
+                else:
+                    self.fail(f"unsupported statement {type(st).__name__} inside a helper function", st)
+            res = self.scopes[-1][2]
+            if res is None:
+                self.fail("the helper function returns nothing", e)
+            if res.kind not in ("arr", "scal"):
+                self.fail(f"the helper function returns {res.kind}", e)
+        finally:
+            self.scopes.pop()
+            self.env, self.aliased, self.where = saved
+        if res.kind == "arr" and not res.fresh:
+            for x in given.values():                                   # the result may be (a view of) an argument
+                if isinstance(x, ast.Name):
+                    self.aliased.add(x.id)
+        return Val(res.kind, res.term, res.kind == "arr" and res.fresh)
+
     def call(self, e):
         f = e.func
         nokw = not e.keywords
+        if isinstance(f, ast.Name) and f.id in self.mod.helpers and f.id not in self.env and f.id not in self.mod.softmax:
+            return self.inline(f.id, e)
         # softmax(A)
         if isinstance(f, ast.Name) and f.id in self.mod.softmax and f.id not in self.env:
             if len(e.args) != 1 or not nokw:
@@ -349,7 +457,8 @@ class Unit:
             return Val("arr", f"(Arr.sumAxis{ax} {a.term})", True)
         # super().method(args)
         if isinstance(f, ast.Attribute) and isinstance(f.value, ast.Call) and isinstance(f.value.func, ast.Name) \
-                and f.value.func.id == "super" and not f.value.args and not f.value.keywords and "super" not in self.env:
+                and f.value.func.id == "super" and not f.value.args and not f.value.keywords and "super" not in self.env \
+                and not self.scopes:
             pmod, powner, _ = self.world.method(self.world.parent(self.owner), f.attr)
             unit = self.by_method.get((powner, f.attr))
             if unit is None:
@@ -387,8 +496,9 @@ class Unit:
     def bind(self, name, v):
         """introduce a Lean `let` (arrays and scalars); lists stay symbolic"""
         if v.kind in ("arr", "scal", "olist"):
-            self.lets.append((lean_ident(name), v.term))
-            self.env[name] = Val(v.kind, lean_ident(name), v.fresh)
+            lean = self.local_name(name)
+            self.lets.append((lean, v.term))
+            self.env[name] = Val(v.kind, lean, v.fresh)
         else:
             self.env[name] = v
         self.aliased.discard(name)
@@ -424,24 +534,8 @@ class Unit:
             if self.result is not None:
                 self.fail("statement after return", st)
             if isinstance(st, ast.Assign):
-                if len(st.targets) != 1:
-                    self.fail("chained assignment", st)
-                t = st.targets[0]
-                if isinstance(t, ast.Name):
-                    if t.id in (retain, "self", "super") or t.id in self.mod.numpy or t.id in self.mod.softmax:
-                        self.fail(f"assignment to {t.id}", st)
-                    v = self.expr(st.value)
-                    if isinstance(st.value, ast.Name):
-                        self.aliased.add(st.value.id)
-                        v.fresh = False
-                    self.bind(t.id, v)
-                    if not v.fresh:
-                        self.aliased.add(t.id)
-                    continue
-                if isinstance(t, ast.Attribute) and isinstance(t.value, ast.Name) and t.value.id == "self" and t.attr.endswith("_"):
-                    self.retain_stmt(t, st.value, st)
-                    continue
-                self.fail("unsupported assignment target", st)
+                self.assign(st, retain)
+                continue
             if isinstance(st, ast.AugAssign):
                 self.augassign(st)
                 continue
@@ -473,6 +567,27 @@ class Unit:
         if self.result is None:
             self.fail("no return value")
         return self
+
+    def assign(self, st, retain):
+        if len(st.targets) != 1:
+            self.fail("chained assignment", st)
+        t = st.targets[0]
+        if isinstance(t, ast.Name):
+            if t.id in (retain, "self", "super") or t.id in self.mod.numpy or t.id in self.mod.softmax or t.id in self.mod.helpers:
+                self.fail(f"assignment to {t.id}", st)
+            v = self.expr(st.value)
+            if isinstance(st.value, ast.Name):
+                self.aliased.add(st.value.id)
+                v.fresh = False
+            self.bind(t.id, v)
+            if not v.fresh:
+                self.aliased.add(t.id)
+            return
+        if isinstance(t, ast.Attribute) and isinstance(t.value, ast.Name) and t.value.id == "self" and t.attr.endswith("_") \
+                and not self.scopes:
+            self.retain_stmt(t, st.value, st)
+            return
+        self.fail("unsupported assignment target", st)
 
     def retain_stmt(self, target, value, st):
         if target.attr in self.attrs or target.attr in self.retained:
